@@ -582,6 +582,8 @@ class VeriTNotEquiv1(Macro):
     def eval(self, args, prevs):
         pt = prevs[0]
         p1, p2 = args
+        if not pt.prop.is_not() or not pt.prop.arg.is_equals():
+            raise VeriTException("not_equiv1", "premise should be a negated equivalence")
         pt_p1, pt_p2 = pt.prop.arg.arg1, pt.prop.arg.arg
         if p1 == pt_p1 and p2 == pt_p2:
             return Thm(Or(p1, p2), pt.hyps)
@@ -607,6 +609,10 @@ class VeriTNotEquiv1(Macro):
     def eval(self, args, prevs):
         pt = prevs[0]
         p1, p2 = args
+        if not pt.prop.is_not() or not pt.prop.arg.is_equals():
+            raise VeriTException("not_equiv2", "premise should be a negated equivalence")
+        if not p1.is_not() or not p2.is_not():
+            raise VeriTException("not_equiv2", "both literals should be negations")
         pt_p1, pt_p2 = pt.prop.arg.arg1, pt.prop.arg.arg
         if p1.arg == pt_p1 and p2.arg == pt_p2:
             return Thm(Or(p1, p2), pt.hyps)
